@@ -121,6 +121,12 @@ class VC(object):
         if not self.ctx.feasible():
             self.ctx.obligations.append(_mk_obl("vacuity/requires-satisfiable", 'refuted', detail='preconditions are contradictory'))
 
+    def binds(self, cond, what):
+        """the contract reads the value through a particular REPRESENTATION (a python list rather than an array, say).  If the code
+        now produces another representation the contract has nothing to say: undecided ('no longer binds'), never a refutation"""
+        if not cond:
+            raise TypeError("representation the contract does not read: %s" % what)
+
     def ensure(self, name, f, isolated=False):
         """isolated: the clause is not assumed afterwards, so independent failures all show"""
         self.ctx.oblige(name, f, assume_after=not isolated)
